@@ -117,6 +117,9 @@ func decryptOriginTokenRequest(nameKey PrivateEncapKey, requestKey []byte, encry
 	b.AddBytes(issuerConfigID[:])
 	aad := b.BytesOrPanic()
 
+	if len(encryptedTokenRequest) < nameKey.suite.KEM.PublicKeySize() {
+		return InnerTokenRequest{}, nil, fmt.Errorf("malformed encrypted token request")
+	}
 	enc := encryptedTokenRequest[0:nameKey.suite.KEM.PublicKeySize()]
 	ct := encryptedTokenRequest[nameKey.suite.KEM.PublicKeySize():]
 
